@@ -244,7 +244,7 @@ package types
 //@   ensures #kind result1 == ite(ground(f.Ty()), MonoFun, PolyFun)
 
 //@ func resolveOverloadedFun
-//@   props C05
+//@   props C05 C01 C03
 //@   requires env != nil && call != nil && forall(i, 0, len(args), wfT(args[i]) && allocated(args[i]))
 //@   uses dyncalls-pure dyncalls-nopanic
 //@   modifies call.Resolved, call.Index
